@@ -223,11 +223,16 @@ pub open spec fn scan(s: Seq<u8>, count: nat) -> (int, nat)
     }
 }
 
-/// streams written by the store: every length prefix met along the parse has <= 10 bytes and fits 32 bits
+/// a length prefix as the store writes it: at most 10 bytes, fits 32 bits, canonical (shortest) varint
+pub open spec fn store_len(s: Seq<u8>) -> bool {
+    vlen(s) is Some ==> (vlen(s).unwrap() <= 10 && vval(s) < 0x1_0000_0000 && vlen(s).unwrap() == enc_len(vval(s)))
+}
+
+/// streams written by the store: every length prefix met along the parse is a store length prefix
 pub open spec fn ok_stream(s: Seq<u8>) -> bool
     decreases s.len()
 {
-    (vlen(s) is Some ==> (vlen(s).unwrap() <= 10 && vval(s) < 0x1_0000_0000))
+    store_len(s)
     && match first_rec(s) { Some(n) => 0 < n <= s.len() ==> ok_stream(s.skip(n)), None => true }
 }
 
@@ -402,7 +407,7 @@ pub proof fn lemma_ok_stream_glue(s: Seq<u8>, k: nat)
 pub open spec fn ok_prefixes(s: Seq<u8>, k: nat) -> bool
     decreases k
 {
-    k == 0 || ((vlen(s) is Some ==> (vlen(s).unwrap() <= 10 && vval(s) < 0x1_0000_0000))
+    k == 0 || (store_len(s)
         && match first_rec(s) { Some(n) => 0 < n <= s.len() ==> ok_prefixes(s.skip(n), (k - 1) as nat), None => true })
 }
 pub proof fn lemma_ok_stream_prefixes(s: Seq<u8>, k: nat)
